@@ -153,6 +153,19 @@ Fixpoint prepare_go (l acc : list Assertion) (width n : Z) : PrepErr + list Asse
 Definition prepare_assertions (l : list Assertion) (width n : Z) : PrepErr + list Assertion :=
   prepare_go l [] width n.
 
+(* BoundaryConstraints::new, validation part (the three assert_eq! on the numbers of assertions / coefficients are not
+   modelled: callers pass consistent counts): the main-segment assertions are prepared against
+   trace_info.main_trace_width(), the auxiliary-segment assertions against trace_info.aux_segment_width() -- each
+   segment's OWN width --, main first *)
+Definition boundary_prepare (main aux : list Assertion) (mw aw n : Z) : PrepErr + (list Assertion * list Assertion) :=
+  match prepare_assertions main mw n with
+  | inl e => inl e
+  | inr m => match prepare_assertions aux aw n with
+             | inl e => inl e
+             | inr a => inr (m, a)
+             end
+  end.
+
 (* key under which group_constraints shares one divisor *)
 Definition group_key (a : Assertion) : Z * Z := (a_stride a, a_first a).
 
